@@ -33,6 +33,7 @@ TAGKEY = {
 SMALL_BUFFERS = ("-DGD_VERIF_BUFFER_SIZE=64 -DGD_VERIF_BZIP_BUFFER_SIZE=64 -DGD_VERIF_LZMA_DATA_OUT=64 "
                  "-DGD_VERIF_LZMA_DATA_IN=32 -DGD_VERIF_LZMA_LOOKBACK=16")
 K_CACHENEG = "getdata/mplex-cache-seeded-before-sample-zero"
+K_PUTHERE = "putdata/inner-sample-minus-one-taken-for-GD_HERE"
 K_LUTDESC = "getdata/linterp-descending-table-not-sorted"      # repaired in /repo (389b7c6, b795cf9): not listed any more, a regression key
 TAGPRIO = ["alloczero", "mplexseek", "unaligned", "mplexrate", "rawpad"]
 
@@ -1085,6 +1086,148 @@ def complex_probe(chk, exe, root, stats, ncases):
                                "impl": line, "expected": [None if e is None else ("+-pi" if isinstance(e, tuple) else [e.real, e.imag]) for e in exp]})
 
 
+# ---------------------------------------------------------------- reads interleaved with writes on one handle
+WRITABLE = ("raw", "lincom1", "phase", "bit", "sbit", "recip", "linterp", "polynom", "mplex", "window")
+
+
+def write_history_probe(chk, exe, root, stats, ncases):
+    """Reads must not depend on what the handle did before -- also when it WROTE in between.  On one GD_RDWR
+    handle: gd_getdata(f, [a,b)); gd_putdata through a RAW or a writable derived field (LINCOM 1, PHASE, BIT, SBIT,
+    RECIP, LINTERP, POLYNOM, MPLEX, WINDOW) sharing a RAW with f, just below b; gd_getdata(f) from b on; several
+    rounds.  The same operations are replayed with every call on its own fresh handle (writes reach the files in
+    the same order); every read must return the same in both runs.  No model is involved (the data after a write
+    through a derived field is C02's subject): this is C01's history-independence clause, extended over writes.
+    Unencoded fragments only (out-of-place codecs re-write whole files: C02/C04)."""
+    rng = chk.rng
+    cases = []
+    tries = 0
+    while len(cases) < ncases and tries < 8 * ncases:
+        tries += 1
+        c = Case(rng, 700000 + len(cases), depth_max=4, simple=True)
+        if c.alter or any(k.endswith((".gz", ".bz2", ".xz")) or (k.endswith(".txt") and not k.startswith("lut")) for k in c.files):
+            continue
+        c.lb = -1
+        names = {f[0]: f for f in c.fields}
+        deps = {}
+        for d in c.drv:
+            t = d.split()
+            if t[0] == "def" and t[1] in names:
+                deps[t[1]] = [x for x in t[3:] if x in names and x != t[1]]
+        roots = {}
+
+        def root_of(n):
+            if n not in roots:
+                roots[n] = {n} if names[n][1] == "raw" else set().union(*[root_of(x) for x in deps.get(n, [])]) if deps.get(n) else set()
+            return roots[n]
+        derived = [f for f in c.fields if f[1] != "raw"]
+        if not derived:
+            continue
+        wr = [f for f in c.fields if f[1] in WRITABLE]
+        ops = []
+        mp = [f for f in derived if f[7]]
+        for _ in range(4):
+            m = rng.choice(mp) if mp and rng.random() < 0.7 else rng.choice(derived)
+            rt = rng.choice([9, 9, 6, 4])
+            for _ in range(2):
+                a = rng.randint(0, 20)
+                b = a + rng.randint(1, 12)
+                ops.append("G %s %d %d %d" % (m[0], rt, a, b - a))
+                cand = [w for w in wr if root_of(w[0]) & root_of(m[0])] or wr
+                w = rng.choice(cand)
+                n = rng.randint(1, 3)
+                # positions are in samples of w; aim just below b in m's samples
+                pos = max(0, (b * w[3]) // m[3] - rng.randint(1, 3))
+                ops.append("P %s %d %d" % (w[0], pos, n))
+                ops.append("G %s %d %d %d" % (m[0], rt, b, rng.randint(1, 8)))
+        # a write whose position becomes -1 below a PHASE (K_PUTHERE): from there on the two runs write to
+        # different places, so the case is judged up to that write and the first difference after it is K_PUTHERE
+        shifts = {}
+        for d in c.drv:
+            t = d.split()
+            if t[0] == "def" and len(t) >= 5 and t[2] == "phase":
+                shifts[t[1]] = (t[3], int(t[4]))
+        c.here_at = None
+        for k, op in enumerate(ops):
+            if op[0] != "P":
+                continue
+            t = op.split()
+            n, pos, inner = t[1], int(t[2]), False
+            while n in names and names[n][1] != "raw":
+                if n in shifts:
+                    n, pos = shifts[n][0], pos + shifts[n][1]
+                elif deps.get(n):
+                    n = deps[n][0]
+                else:
+                    break
+                if pos == -1:
+                    inner = True
+            if inner:
+                c.here_at = k
+                break
+        c.ops = ops
+        c.hdir = c.write(os.path.join(root, "h"))
+        c.fdir = c.write(os.path.join(root, "f"))
+        cases.append(c)
+    jobs = vlib.NPROC
+    chunks = [ch for ch in (cases[i::jobs] for i in range(jobs)) if ch]
+
+    def job(ch):
+        lines = []
+        for c in ch:
+            lines += ["W %s" % c.hdir, "L -1"] + c.ops + ["C"]
+            for op in c.ops:
+                lines += ["%s %s" % ("W" if op[0] == "P" else "O", c.fdir), "L -1", op, "C"]
+        return run_stream([exe], "\n".join(lines) + "\n", env=HENV)
+    with ThreadPoolExecutor(max_workers=jobs) as ex:
+        outs = list(ex.map(job, chunks))
+    seen = set()
+    for ch, (rc, out) in zip(chunks, outs):
+        blocks = impl_blocks(out)
+        if rc != 0 or len(blocks) != sum(1 + len(c.ops) for c in ch):
+            chk.violation("harness", "write-history probe: harness rc=%d blocks=%d: %s" % (rc, len(blocks), out[-300:]), {"kind": "harness"}, found=False)
+            continue
+        bi = 0
+        for c in ch:
+            hist = blocks[bi]; bi += 1
+            fresh = blocks[bi:bi + len(c.ops)]; bi += len(c.ops)
+            hres = hist[2:-1] if not hist[-1].startswith("X ") else hist[2:]
+            for k, op in enumerate(c.ops):
+                fr = fresh[k]
+                fl = fr[2] if len(fr) >= 4 and not fr[-1].startswith("X ") else "crash"
+                hl = hres[k] if k < len(hres) else "crash"
+                if op[0] != "G":
+                    continue
+                stats["write_history_reads"] = stats.get("write_history_reads", 0) + 1
+                if hl == fl:
+                    continue
+                kind = names_kind(c, op.split()[1])
+                key = "getdata/history-dependent/after-write/%s" % kind
+                if c.here_at is not None and k > c.here_at:
+                    key = K_PUTHERE
+                stats["bykey"][key] = stats["bykey"].get(key, 0) + 1
+                if key in seen:
+                    if key == K_PUTHERE:
+                        break
+                    continue
+                seen.add(key)
+                chk.violation(key, "on one GD_RDWR handle, after %s, `%s` returns `%s`; the same call on a fresh handle (same writes already in the files) returns `%s`\n%s" % (
+                    c.ops[max(0, k - 3):k], op, hl[:200], fl[:200], c.format_text()),
+                    {"kind": "write-history", "format": c.format_text(),
+                     "data_files": {n: v.hex() for n, v in c.files.items() if not n.endswith("format") and not n.endswith(".txt")},
+                     "tables": {n: v.decode() for n, v in c.files.items() if n.endswith(".txt")},
+                     "operations_on_one_handle": c.ops[:k + 1], "result_on_that_handle": hl, "result_on_a_fresh_handle": fl,
+                     "all_results_on_the_handle": hres[:k + 1],
+                     "how": "harness/C01/rd: 'W <dir>', 'L -1', the operations (P <field> <s> <n> = gd_putdata of the doubles 1000+s+i), 'C'; "
+                            "for the fresh-handle run put every operation between its own 'W|O <dir>' and 'C' on a second copy of the dirfile"})
+
+
+def names_kind(c, n):
+    for f in c.fields:
+        if f[0] == n:
+            return f[1]
+    return "?"
+
+
 def re_sub_digits(code):
     return code
 
@@ -1250,6 +1393,9 @@ def main():
         shutil.rmtree(broot, ignore_errors=True)
     except vlib.BuildError as e:
         chk.violation("build", "small-buffer build failed: " + str(e)[:1500], {"kind": "build", "log": str(e)}, found=False)
+    whroot = os.path.join(root, "wh")
+    os.makedirs(whroot)
+    write_history_probe(chk, exe, whroot, stats, 400 if not chk.thorough else 3000)
     cxroot = os.path.join(root, "complex")
     os.makedirs(cxroot)
     complex_probe(chk, exe, cxroot, stats, 60 if not chk.thorough else 600)
